@@ -139,6 +139,20 @@ def resolve_arg(spec, regs, dead=None):
         return o
     if "const" in spec:
         return resolve_const(spec)
+    if "copy" in spec:
+        # the caller hands over a copy of an object it holds (copy.copy / deepcopy /
+        # a pickle round trip): an equal argument made another way
+        import copy
+        import pickle
+        o = resolve_arg(spec["copy"], regs)
+        try:
+            if spec.get("how") == "deepcopy":
+                return copy.deepcopy(o)
+            if spec.get("how") == "pickle":
+                return pickle.loads(pickle.dumps(o))
+            return copy.copy(o)
+        except Exception as e:
+            raise Missing("cannot be copied: %s" % type(e).__name__)
     if "list" in spec:
         items = [resolve_arg(s, regs) for s in spec["list"]]
         return _at_dead_address(lambda: list(items), dead)
@@ -154,6 +168,8 @@ def arg_regs(spec, out=None):
         out = []
     if "reg" in spec:
         out.append(spec["reg"])
+    if "copy" in spec:
+        arg_regs(spec["copy"], out)
     for k in ("list", "tuple"):
         if k in spec:
             for s in spec[k]:
